@@ -111,7 +111,7 @@ def generate(ctx):
             steps.append({"drive": rng.choice(["random", "random", "random", "zero", "huge+", "huge-", "negative",
                                                "near+", "near-", "near+", "strong"]),
                           "lock": rng.random() < 0.8, "adapt": rng.choice([None, None, True, False]),
-                          "train": rng.random() < 0.5})
+                          "train": rng.random() < 0.5, "clear": rng.random() < 0.02})
         yield {"part": "trajectory", "cls": cls, "dt": dt, "params": _params(rng, cls, dt),
                "dtype": rng.choice(["float64", "float64", "float32"]), "B": rng.randint(1, 4),
                "shape": list(rng.choice([(3,), (2, 2), (1,), (2, 1, 2), (5,)])), "seed": rng.randrange(1 << 30),
@@ -202,6 +202,13 @@ def run_case(ctx, desc):
     thr_key = "thresh_eq_v" if cls in THRESH_ADAPT else "thresh_v"
     for t, st in enumerate(desc["steps"]):
         rdesc = {**desc, "steps": desc["steps"][: t + 1]}
+        if st.get("clear"):
+            # back to the resting state in the middle of a trajectory: no refractory window is pending any more
+            n.clear()
+            last_spike = np.full(full, -10 ** 9, dtype=np.int64)
+            ctx.count("mid_trajectory_clears")
+            if bool((n.refrac != 0).any()) or not bool(torch.isfinite(n.voltage).all()):
+                return ctx.violation(f"{cls}.clear.not_resting", "after clear() a refractory time is pending or the voltage is not finite", rdesc)
         n.train(st["train"])
         v0, r0 = _np(n.voltage), _np(n.refrac)
         # remaining refractory time after this step's decrement, in the neuron's own arithmetic
